@@ -18,6 +18,8 @@ import Blue.Proofs.BlockEmpty
 import Blue.Proofs.SstFits
 import Blue.Proofs.SstHeadline
 import Blue.Proofs.ConstsTieC10
+import Blue.Proofs.Sbbf
+import Blue.Proofs.SbbfSst
 /-! # Property C10 — an SST or block returns exactly what was put in, under every cursor movement
 
 Property theorems only (helper lemmas live in `Blue/Proofs/{Wire,EntryCodec,Block,BlockRestarts,
@@ -837,6 +839,159 @@ example : ((MB.putAll ⟨⟨16, 16⟩, 4096, 17, 0⟩ MB.init
         (fun s => s.accepted.map keyTs))
     = ([none, some (.put .sortOrder), none, none], [[([98], 1)], [([98], 0)], [([99], 5)]]) := by decide +kernel
 
+/-! ## the bloom filter (sst/src/sbbf.rs), from the hash word on
+
+The model is `Blue/Model/Sbbf.lean` (`Block::{mask, insert, check}`, `Filter::{new, deferred_insert,
+check, to_bytes, try_from}`, `do_hashing` with its assertion; run by the driver's `bloom` requests
+against `sst::sbbf::Filter`), the proofs `Blue/Proofs/{Sbbf,SbbfSst}.lean`.  A hash word is what
+`Filter::defer_insert(item)` returns (SipHash-2-4 of the external `siphasher` crate: not modelled).
+All statements are for any number of blocks ≥ 1 and any hash words. -/
+section Bloom
+open Blue.Sbbf (Filter Block build blockIdx sealFilter loadWithFilter)
+
+/-- NEW: the `assert!(block_idx < self.blocks.len())` of `do_hashing` can never fire: for every
+    hash word and every `n ≥ 1` blocks, `((x >> 32) * n) >> 32 < n` (the model's `blockIdx` IS that
+    expression on a `u64`), and the `u64` product does not overflow up to 2^32 blocks -/
+theorem bloom_block_idx_in_range (n x : Nat) (hn : 1 ≤ n) :
+    blockIdx n x < n
+    ∧ (x < 2 ^ 64 → blockIdx n x = (x >>> 32 * n) >>> 32)
+    ∧ (n ≤ 2 ^ 32 → x % 2 ^ 64 / 2 ^ 32 * n < 2 ^ 64) :=
+  ⟨Blue.Sbbf.block_idx_in_range n x hn, Blue.Sbbf.blockIdx_u64 n x, Blue.Sbbf.block_idx_no_overflow n x⟩
+
+/-- NEW: `Filter::new(size)` has `min(size + 7, u32::MAX) / 256 + 1` blocks for every `size`: at
+    least one (its `assert!(size > 0)` never fires; no empty filter is ever made), at most 2^24 -/
+theorem bloom_new_nonempty (size : Nat) :
+    (Filter.new size).blocks.length = min (size + 7) 4294967295 / 256 + 1
+    ∧ 1 ≤ (Filter.new size).blocks.length
+    ∧ (Filter.new size).blocks.length ≤ 16777216 := Blue.Sbbf.new_nonempty size
+
+/-- NEW: panic-freedom of insert and check: on every filter with at least one block the code's
+    `deferred_insert` and `check` (`Option`-valued in the model: `none` = the assertion fired or an
+    index out of range) return, and are the total functions the theorems below speak about;
+    building a filter as `SstBuilder::seal` does never panics -/
+theorem bloom_never_panics :
+    (∀ (f : Filter) (x : Nat), 1 ≤ f.blocks.length →
+      f.deferredInsert? x = some (f.deferredInsert x) ∧ f.check? x = some (f.check x)
+      ∧ (f.deferredInsert x).blocks.length = f.blocks.length)
+    ∧ ∀ (size : Nat) (words : List Nat),
+        words.foldlM Filter.deferredInsert? (Filter.new size) = some (build size words) :=
+  ⟨fun f x hf => ⟨Blue.Sbbf.deferredInsert?_eq f x hf, Blue.Sbbf.check?_eq f x hf, Blue.Sbbf.deferredInsert_length f x⟩,
+   Blue.Sbbf.build_never_panics⟩
+
+/-- NEW: **no false negatives** — for every filter with at least one block, every list of
+    inserted hash words and every word of the list, `check` answers true after the inserts -/
+theorem bloom_no_false_negatives (f : Filter) (hf : 1 ≤ f.blocks.length) (xs : List Nat) (x : Nat) (hx : x ∈ xs) :
+    (xs.foldl Filter.deferredInsert f).check x = true := Blue.Sbbf.no_false_negatives f hf xs x hx
+
+/-- NEW: inserts are monotone: whatever checked true keeps checking true after any further
+    inserts, and a set bit (bit `j` of word `i` of block `k`) stays set -/
+theorem bloom_insert_monotone (f : Filter) (xs : List Nat) :
+    (∀ y, f.check y = true → (xs.foldl Filter.deferredInsert f).check y = true)
+    ∧ ∀ (k i j : Nat) (b : Block) (hi : i < 8) (hj : j < 32), f.blocks[k]? = some b → b[i][j] = true →
+        ∃ b', (xs.foldl Filter.deferredInsert f).blocks[k]? = some b' ∧ b'[i][j] = true :=
+  ⟨fun y h => Blue.Sbbf.check_foldl_mono xs f y h,
+   fun k i j b hi hj hb h => Blue.Sbbf.bit_foldl_mono xs f k i j b hi hj hb h⟩
+
+/-- NEW: `Filter::try_from(&f.to_bytes()) == Ok(f)` for every filter with at least one block — the
+    filter an SST stores and the reader re-parses is the filter the builder made — and `to_bytes`
+    gives `32 · blocks` bytes (values below 256) -/
+theorem bloom_bytes_roundtrip (f : Filter) (hf : 1 ≤ f.blocks.length) :
+    Filter.tryFrom f.toBytes = .ok f
+    ∧ f.toBytes.length = 32 * f.blocks.length
+    ∧ ∀ b ∈ f.toBytes, b < 256 :=
+  ⟨Blue.Sbbf.bytes_roundtrip f hf, Blue.Sbbf.toBytes_length f, Blue.Sbbf.toBytes_are_bytes f⟩
+
+/-- NEW: `Filter::try_from` on ARBITRARY bytes is total (never panics) and answers by the length
+    alone: error iff the slice is empty or its length is not a multiple of 32; otherwise a filter of
+    `len / 32 ≥ 1` blocks (so a parsed filter can be inserted into and checked without a panic) -/
+theorem bloom_try_from_total (bytes : List Nat) :
+    ((∃ e, Filter.tryFrom bytes = .error e) ↔ (bytes = [] ∨ bytes.length % 32 ≠ 0))
+    ∧ (bytes = [] → Filter.tryFrom bytes = .error .empty)
+    ∧ (bytes ≠ [] → bytes.length % 32 ≠ 0 → Filter.tryFrom bytes = .error .notMultiple)
+    ∧ (bytes ≠ [] → bytes.length % 32 = 0 →
+        ∃ f, Filter.tryFrom bytes = .ok f ∧ f.blocks.length = bytes.length / 32 ∧ 1 ≤ f.blocks.length) :=
+  ⟨Blue.Sbbf.tryFrom_error_iff bytes, Blue.Sbbf.tryFrom_total bytes⟩
+
+/-- NEW: the composition `SstBuilder::seal` → file → `Sst::new` runs: `Filter::new(size)`, one
+    `deferred_insert` per word, `to_bytes`, `try_from`: the parse succeeds, gives the very filter,
+    and every inserted word checks true on it (no panic) -/
+theorem bloom_stored_filter_no_false_negatives (size : Nat) (words : List Nat) :
+    ∃ g, Filter.tryFrom (build size words).toBytes = .ok g
+      ∧ g = build size words
+      ∧ ∀ x ∈ words, g.check? x = some true := Blue.Sbbf.stored_filter_no_false_negatives size words
+
+/-- NEW: **the table with its filter** — `h` is `Filter::defer_insert` on a key (ANY function: SipHash
+    is not modelled; builder and reader use the same one).  Feed any attempts to `SstBuilder`; `seal`
+    writes the filter block it computes itself (`sealFilter`: sized by `count · bits` saturating,
+    one insert per accepted entry — no longer a parameter with a length hypothesis); open the file
+    image: the filter block parses back to the builder's filter, every accepted key is answered
+    "maybe", and `Sst::load` WITH its filter test (`loadWithFilter`: a negative answer returns
+    `None` at once) is, for EVERY key and timestamp and whatever false positives the filter has,
+    the specification over the accepted entries, without a panic.  This replaces "load is modelled
+    for keys the filter does not rule out". -/
+theorem sst_load_with_filter (h : List Nat → Nat) (o : SstOpts) (atts : List KV) (setsum : List Nat) (f : SstFile)
+    (hseal : (SB.putAll o SB.init atts).2.seal o
+        (sealFilter h o.bloomBits (SB.putAll o SB.init atts).2).toBytes setsum = .ok f)
+    (hts : ∀ e ∈ atts, e.ts ≤ U64MAX)
+    (hsetsum : setsum.length = 32)
+    (hsize : f.bytes.length < U64)
+    (hbE : ∀ e ∈ atts, KVBytes e) :
+    ∃ t g, openSst crc32c f.bytes = .ok t
+      ∧ Filter.tryFrom f.filter = .ok g
+      ∧ g = sealFilter h o.bloomBits (SB.putAll o SB.init atts).2
+      ∧ (∀ e ∈ (SB.putAll o SB.init atts).2.accepted, g.check? (h e.key) = some true)
+      ∧ ∀ (k : List Nat) (ts : Nat),
+          loadWithFilter g (h k) (t.load crc32c k ts)
+            = some (.ok (loadSpec (SB.putAll o SB.init atts).2.accepted k ts)) :=
+  Blue.Sbbf.sst_load_with_filter h o atts setsum f hseal hts hsetsum hsize hbE
+
+/-- NEW: the builder's filter block meets what the file round-trip theorems ask of their filter
+    parameter (`hfilter`: the length `Filter::new` gives; `hbF`: bytes) -/
+theorem bloom_filter_block_fits (h : List Nat → Nat) (bits : Nat) (s : SB) :
+    (sealFilter h bits s).toBytes.length = filterLen s.count bits
+    ∧ Bytes (sealFilter h bits s).toBytes := Blue.Sbbf.sealFilter_bytes h bits s
+
+/-- NEW: the salts, the shifts (27; `saturating_add(7) >> 3 >> 5 + 1`; `>> 32`), the sizes (8 words
+    of 4 little-endian bytes, 32-byte blocks) and the shapes of `mask` / `insert` / `check` are the
+    ones in sst/src/sbbf.rs (regenerated on every run) -/
+theorem bloom_constants_from_source :
+    Blue.Sbbf.SALT.toList = Blue.Generated.sbbfSalt
+    ∧ [1, Blue.Sbbf.MASK_SHIFT] = Blue.Generated.sbbfMask
+    ∧ Blue.Generated.sbbfInsertOrCheckAnd = 1
+    ∧ [Blue.Sbbf.NEW_ROUND_UP, Blue.Sbbf.NEW_SHIFT_BYTES, Blue.Sbbf.NEW_SHIFT_BLOCKS, Blue.Sbbf.NEW_EXTRA_BLOCKS]
+        = Blue.Generated.sbbfNewSize
+    ∧ [Blue.Sbbf.HASH_SHIFT, Blue.Sbbf.HASH_SHIFT] = Blue.Generated.sbbfHashShifts
+    ∧ List.replicate 5 Blue.Sbbf.BLOCK_WORDS = Blue.Generated.sbbfBlockWords
+    ∧ [Blue.Sbbf.BLOCK_BYTES, Blue.Sbbf.WORD_BYTES, Blue.Sbbf.WORD_BYTES, Blue.Sbbf.BLOCK_BYTES, Blue.Sbbf.BLOCK_BYTES,
+        Blue.Sbbf.BLOCK_BYTES, Blue.Sbbf.BLOCK_BYTES] = Blue.Generated.sbbfByteLayout :=
+  ⟨Blue.ConstsTie.sbbf_salt, Blue.ConstsTie.sbbf_mask.1, Blue.ConstsTie.sbbf_insert_check_shape,
+   Blue.ConstsTie.sbbf_new_size, Blue.ConstsTie.sbbf_hash_shifts.1, Blue.ConstsTie.sbbf_block_words.1,
+   Blue.ConstsTie.sbbf_byte_layout.1⟩
+
+/-! non-vacuity, by kernel evaluation of the model: a two-block filter (`size = 300`) with two
+    words, one in each block; the inserted words check true, a fresh one false; the bytes parse
+    back to the filter; a cut copy is refused, the first block alone is a filter -/
+example : 1 ≤ (Filter.new 0).blocks.length ∧ (Filter.new 300).blocks.length = 2
+    ∧ (Filter.new 4294967295).blocks.length = 16777216 := by
+  refine ⟨(bloom_new_nonempty 0).2.1, ?_, ?_⟩ <;> rw [(bloom_new_nonempty _).1] <;> omega
+example : blockIdx 2 5 = 0 ∧ blockIdx 2 0x8000000000000001 = 1 ∧ blockIdx 1 (2 ^ 64 - 1) = 0
+    ∧ blockIdx 16777216 (2 ^ 64 - 1) = 16777215 := by decide
+example : (build 300 [5, 0x8000000000000001]).check 5 = true
+    ∧ (build 300 [5, 0x8000000000000001]).check 0x8000000000000001 = true
+    ∧ (build 300 [5, 0x8000000000000001]).check 77 = false
+    ∧ (build 300 [5, 0x8000000000000001]).check 0x8000000000000005 = false := by decide +kernel
+example : (Blue.Sbbf.mask 12345).toList.map (·.toNat)
+    = [8, 1048576, 64, 262144, 134217728, 16384, 4194304, 67108864] := by decide +kernel
+example : (build 300 [5, 0x8000000000000001]).toBytes.length = 64
+    ∧ (Filter.tryFrom (build 300 [5, 0x8000000000000001]).toBytes).toOption = some (build 300 [5, 0x8000000000000001])
+    ∧ ((Filter.tryFrom ((build 300 [5, 0x8000000000000001]).toBytes.take 63)).toOption).isNone = true
+    ∧ ((Filter.tryFrom ((build 300 [5, 0x8000000000000001]).toBytes.take 32)).toOption).map (·.blocks.length) = some 1 := by
+  decide +kernel
+/-- the filter is not the constant "maybe": on the empty table's filter every key is ruled out -/
+example : (sealFilter (fun k => k.length) 17 SB.init).check 3 = false := by decide +kernel
+
+end Bloom
+
 end Blue.Props.C10
 
 #print axioms Blue.Props.C10.limits_from_source
@@ -884,3 +1039,14 @@ end Blue.Props.C10
 #print axioms Blue.Props.C10.metadata_exact
 #print axioms Blue.Props.C10.multi_builder_as_found_writes_unordered
 #print axioms Blue.Props.C10.multi_block_instance
+#print axioms Blue.Props.C10.bloom_block_idx_in_range
+#print axioms Blue.Props.C10.bloom_new_nonempty
+#print axioms Blue.Props.C10.bloom_never_panics
+#print axioms Blue.Props.C10.bloom_no_false_negatives
+#print axioms Blue.Props.C10.bloom_insert_monotone
+#print axioms Blue.Props.C10.bloom_bytes_roundtrip
+#print axioms Blue.Props.C10.bloom_try_from_total
+#print axioms Blue.Props.C10.bloom_stored_filter_no_false_negatives
+#print axioms Blue.Props.C10.sst_load_with_filter
+#print axioms Blue.Props.C10.bloom_filter_block_fits
+#print axioms Blue.Props.C10.bloom_constants_from_source
